@@ -35,7 +35,10 @@ LEVEL_TEXT = (
     "is audited.  Histories: the program may be chained with a separately built copy of itself or with the same program "
     "over twin leaves (equal but distinct relation objects in one tree); after processing, selections / chains / joins "
     "are built on each cached materialization and the processed tree itself is refined (selection, calculation, each "
-    "engine preferred in turn), processed and executed again."
+    "engine preferred in turn), processed and executed again.  Fault injection: in half of the cases a preliminary "
+    "process() call is interrupted by an exception raised by the n-th hook call; it must propagate, leave the input tree "
+    "unchanged (modulo complete materialization payloads, never a transfer payload), and the regular calls that follow "
+    "must give the right rows with at most one completed hook call per materialization."
 )
 LEVEL_NOTE = "trusts: harness Processor subclass (vf/core/proc.py) is truthful; ev_multi labels; SQLite; P1, P4, P8"
 RULE = (
@@ -117,6 +120,10 @@ def strategy(tier):
         # 0: the program alone; 1: chained with a second, separately built copy of itself (equal but distinct relation
         # objects); 2: chained with the same program over twin leaves (same names / engines / columns, other rows)
         st.sampled_from([0, 0, 0, 1, 2]),
+        # fault injection: 0 = none; n >= 1: before the regular calls, process() is called once with a Processor whose
+        # hook call number n-1 raises - the exception must propagate, the input tree must stay as it was (modulo complete
+        # materialization payloads), and the regular calls afterwards must still give the right rows
+        st.sampled_from([0, 0, 0, 1, 2, 3]),
     )
 
 
@@ -301,6 +308,7 @@ def run_case(case, stats):
 
     (universe, leaves, prog), ncalls, *more = case
     mode = more[0] if more else 0
+    fault = more[1] if len(more) > 1 else 0
     if has_iter_join(prog, leaves):
         stats.c["skipped:iteration-join"] += 1
         return
@@ -345,6 +353,37 @@ def run_case(case, stats):
         before = fingerprint(tree, marker_payloads=False)
         proc = make_processor(env)
         ctx = f"program {fmt(prog, leaves)}; tree {tree}"
+        if fault:
+            from vf.core.env import InjectedFault
+
+            proc.fail_at = fault - 1
+            try:
+                proc.process(tree)
+            except InjectedFault:
+                stats.c["fault:interrupted"] += 1
+            except DatabaseError:
+                stats.c["db-error-in-hook"] += 1
+                return
+            except Exception as e:
+                if proc.fault_fired and any(isinstance(x, InjectedFault) for x in (e.__cause__, e.__context__)):
+                    stats.c["fault:interrupted"] += 1
+                elif isinstance(e, (NotImplementedError, KeyError)) and "convert_column_expression" in exc_sig(e) + "":
+                    stats.c["compile-error-in-hook"] += 1
+                    return
+                else:
+                    raise Violation("process-raised", f"process() call #0 (with an injected hook fault) raised {type(e).__name__}: {str(e)[:300]}; {ctx}", sig=exc_sig(e), call=0)
+            else:
+                if proc.fault_fired:
+                    raise Violation("fault-swallowed", f"the exception raised by Processor hook call #{fault - 1} did not propagate out of process(); {ctx}")
+                stats.c["fault:not-reached"] += 1
+            finally:
+                proc.fail_at = None
+            ctx += f"; after a process() call interrupted at hook call #{fault - 1}" if proc.fault_fired else ""
+            if fingerprint(tree, marker_payloads=False) != before:
+                raise Violation("input-tree-changed", f"fingerprint of the tree passed to process() changed by an interrupted process() call; {ctx}")
+            for n in lib_nodes(tree):
+                if isinstance(n, Transfer) and n.payload is not None:
+                    raise Violation("input-transfer-gained-payload", f"transfer {str(n)[:200]} of the input tree has a payload after an interrupted process(); {ctx}")
         for call in range(1, ncalls + 1):
             try:
                 result = proc.process(tree)
@@ -404,14 +443,14 @@ def run_case(case, stats):
             refine_processed(prog, leaves, universe, result, env, proc, stats, ctx)
         # hook audit
         per_name = {}
-        for hook, rel, dest, name in proc.log:
+        for idx, (hook, rel, dest, name) in enumerate(proc.log):
             stats.c[f"hook:{hook}"] += 1
             for n in evaluable_nodes(rel):
                 if isinstance(n, Transfer) and n.payload is None:
                     raise Violation("hook-source-not-evaluable", f"{hook} hook got a source containing an unprocessed transfer: {str(rel)[:300]}; {ctx}")
             if rel.max_rows == 0 or rel.is_join_identity:
                 raise Violation("hook-on-trivial", f"{hook} hook called for a relation statically known to be {'empty' if rel.max_rows == 0 else 'a join identity'}: {str(rel)[:300]}; {ctx}")
-            if name is not None:
+            if name is not None and idx in proc.completed:
                 per_name[name] = per_name.get(name, 0) + 1
         for name, cnt in per_name.items():
             if cnt > (2 if mode else 1):
@@ -431,7 +470,13 @@ def run_case(case, stats):
 
 def describe(case):
     mode = case[2] if len(case) > 2 else 0
-    return describe_case(*case[0], process_calls=case[1], combined=("alone", "chained with a separately built copy", "chained with the same program over twin leaves")[mode])
+    fault = case[3] if len(case) > 3 else 0
+    return describe_case(
+        *case[0],
+        process_calls=case[1],
+        combined=("alone", "chained with a separately built copy", "chained with the same program over twin leaves")[mode],
+        injected_fault=f"hook call #{fault - 1} of a preliminary process() raises" if fault else "none",
+    )
 
 
 def attribute(case, v):
